@@ -1842,10 +1842,12 @@ class SpaceUpdater(SharedSpaceOperations):
         self.model.refmgr.forget_spaces(
             [self.manager._graph.to_space(n) for n in nodes_removed])
 
-        for _, v in nx.edge_bfs(self.manager._graph, node):
-            self._instructions.append(
-                Instruction(self._update_derived_space, (v,))
-            )
+        # Update the sub spaces of the deleted space and of its descendants
+        for _, v in nx.edge_bfs(self.manager._graph, nodes_removed):
+            if v not in nodes_removed:
+                self._instructions.append(
+                    Instruction(self._update_derived_space, (v,))
+                )
 
         self._graph.remove_nodes_from(nodes_removed)
 
